@@ -359,6 +359,7 @@ type qfctx struct {
 	brk   func(en qenv) string
 	cont  func(en qenv) string
 	final func(string) string
+	top   bool // the function's own context (not inside a loop): join points are allowed
 }
 
 type qparam struct {
@@ -392,6 +393,8 @@ type qtrans struct {
 	aux       []string
 	nloop     int
 	ntmp      int
+	njoin     int     // join tokens handed out
+	nk        int     // join points emitted
 	pre       []qitem // pending `let` lines and abort guards of the current statement, in evaluation order
 	needPnc   bool
 	rebound   map[string]bool // Lean paths ("a.header") rebound so far
